@@ -4,7 +4,8 @@ the *spelling* unambiguous for the parser):
 
 * URLs are not of a scheme comrak's default safe mode blanks (`javascript:`, `vbscript:`,
   `file:`, `data:` other than four image types) and contain no `'` (comrak writes it `&#x27;`,
-  a choice the specification's examples do not cover);
+  a choice the specification's examples do not cover); footnote names are letters and digits
+  (they are written into `href` / `id` attributes as they are);
 * the info string of a code block is not exactly `math` (comrak renders that block with an extra
   `data-math-style` attribute even with every extension off) and has no line ending in it.
 -/
@@ -27,6 +28,7 @@ def Inl.safe : Inl → Bool
   | .link url _ _ _ cs => urlSafe url && cs.safe
   | .image url _ _ cs => urlSafe url && cs.safe
   | .autolink s r => urlSafe (autolinkUrl s r)
+  | .fnref name _ _ => name.all isAsciiAlnum
   | _ => true
 def Inls.safe : Inls → Bool
   | .nil => true
@@ -43,14 +45,18 @@ def Blk.safe : Blk → Bool
   | .fence _ _ info _ => infoSafe info
   | .quote bs => bs.safe
   | .list _ items => items.safe
+  | .htmlb _ => true
+  | .table _ h rows => h.all Inls.safe && rows.all fun r => r.all Inls.safe
 def Blks.safe : Blks → Bool
   | .nil => true
   | .cons b r => b.safe && r.safe
 def Items.safe : Items → Bool
   | .nil => true
-  | .cons bs r => bs.safe && r.safe
+  | .cons _ bs r => bs.safe && r.safe
 end
 
-def Doc.safe (d : Doc) : Bool := d.blocks.safe
+def Note.safe (n : Note) : Bool := n.name.all isAsciiAlnum && n.body.safe
+
+def Doc.safe (d : Doc) : Bool := d.blocks.safe && d.notes.all Note.safe
 
 end Comrak.Canon
